@@ -1122,18 +1122,18 @@ func c02EvalLocPathGate(w *World) (*types.Var, string) {
 	if toggle == nil {
 		return nil, "no per-predicate counter incremented in EvalLocPath found"
 	}
-	var call *ssa.Call
+	// the path is resolved: the call sites of EvalLocPathInternal, joined
+	resolved := pcZ
+	ncalls := 0
 	for _, b := range f.Blocks {
 		for _, in := range b.Instrs {
 			if c, ok := in.(*ssa.Call); ok && c.Call.StaticCallee() != nil && c.Call.StaticCallee().Object() == inner {
-				if call != nil {
-					return toggle, "EvalLocPathInternal is called at two places — not decided"
-				}
-				call = c
+				ncalls++
+				resolved = pcOrF(resolved, sym.PathCond(f.Blocks[0], b, nil))
 			}
 		}
 	}
-	if call == nil {
+	if ncalls == 0 {
 		return toggle, "EvalLocPath never resolves a path (no call of EvalLocPathInternal)"
 	}
 	depthSubj := ctxKey + ".predicateCount"
@@ -1193,7 +1193,7 @@ func c02EvalLocPathGate(w *World) (*types.Var, string) {
 	if msg := pcCompare(sym.PathCond(f.Blocks[0], incr.Block(), nil), classify, func(env map[string]bool) bool { return env["inpred"] }); msg != "" {
 		return toggle, "the toggle " + toggle.Name() + " is not incremented exactly when EvalLocPath runs inside a predicate: " + msg
 	}
-	if msg := pcCompare(sym.PathCond(f.Blocks[0], call.Block(), nil), classify, func(env map[string]bool) bool {
+	if msg := pcCompare(resolved, classify, func(env map[string]bool) bool {
 		if env["inpred"] {
 			return !env["odd"]
 		}
@@ -1344,14 +1344,33 @@ func c02InstructionFor(w *World, cf *ssa.Function, elem int64) (ssa.Value, bool)
 		}
 		return resolve(picked, d+1)
 	}
+	var emitted []ssa.Value
+	ncalls := 0
 	for _, b := range cf.Blocks {
 		for _, in := range b.Instrs {
 			c, ok := in.(*ssa.Call)
 			if !ok || c.Call.StaticCallee() == nil || nm(c.Call.StaticCallee()) != "CodeFn" || len(c.Call.Args) < 2 {
 				continue
 			}
-			return resolve(c.Call.Args[1], 0)
+			ncalls++
+			// an emitting call that this operator does not reach
+			if reached, decided, _ := pcEvalUnder(sym.PathCond(cf.Blocks[0], b, nil), model); decided && !reached {
+				continue
+			}
+			v, ok := resolve(c.Call.Args[1], 0)
+			if !ok {
+				return nil, false
+			}
+			if v != nil {
+				emitted = append(emitted, v)
+			}
 		}
 	}
-	return nil, false
+	switch {
+	case ncalls == 0 || len(emitted) > 1:
+		return nil, false
+	case len(emitted) == 1:
+		return emitted[0], true
+	}
+	return nil, true
 }
